@@ -30,6 +30,29 @@ def levels_index(t):
     return None
 
 
+def walker(ctx, W, path, param):
+    """The function that actually contains the level walk: `path` itself, or the crate-local method it forwards its position parameter to
+    (a thin wrapper such as get_paths -> get_paths_into).  Returns (Fn, local number of the position parameter)."""
+    fn = ctx.fn(path)
+    for _ in range(3):
+        if fn.loops():
+            return fn, param
+        ev = W.ev(fn.path)
+        nxt = None
+        for bb, t in fn.calls():
+            tg = [x for x in ctx.prog.call_targets(t) if x in ctx.prog.fns and ctx.prog.fns[x].impl_self == fn.impl_self]
+            if len(tg) != 1:
+                continue
+            a = ev.call_args(bb)
+            pos = [i for i, x in enumerate(a) if uncast(x) == ("param", fn.path, param)]
+            if len(pos) == 1:
+                nxt = (tg[0], pos[0] + 1)
+        if nxt is None:
+            return fn, param
+        fn, param = ctx.fn(nxt[0]), nxt[1]
+    return fn, param
+
+
 def count_tracks_level(ctx, W, cr, ev0, hash_bb, child_level):
     """The pair loop must consume exactly the (padded) children level: with c the node counter tested for oddness,
     the counter is c+1 on the odd edge (where the zero node is appended to the CHILDREN level, before pairing), then halved, and the pair loop runs
@@ -176,9 +199,9 @@ def run(ctx):
     P = ctx.prog
 
     # ------------------------------------------------------------------ get_paths
-    gp = ctx.fn(M + "::get_paths")
+    gp, IDX = walker(ctx, W, M + "::get_paths", 2)
     for b in (0, 1):
-        ev = Ev(P, gp, overrides={2: ("aff", 2, b)})
+        ev = Ev(P, gp, overrides={IDX: ("aff", 2, b)})
         live = ev.live()
         sib = []
         for bb, t in gp.calls():
@@ -194,7 +217,7 @@ def run(ctx):
                   "get_paths picks sibling %s for position 2k+%d (expected 2k+%d)" % ([fmt(s[1][1]) for s in sib], b, 1 - b), ctx.loc(gp))
         # next index
         nxt = []
-        for (db, di, kind) in gp.defs().get(2, []):
+        for (db, di, kind) in gp.defs().get(IDX, []):
             if kind == "whole" and di != "term" and db in live:
                 nxt.append(ev.rvalue(gp.blocks[db].stmts[di]["rv"], (db, di)))
         ctx.check("index-algebra", "get_paths/parent/parity%d" % b, nxt == [("aff", 1, 0)], "continues with k",
@@ -202,7 +225,7 @@ def run(ctx):
         # the level read and the level emptiness test use the same level variable which advances by one
     ev0 = W.ev(gp.path)
     # level counter: increments by exactly one per iteration
-    lv = [l for l in range(len(gp.locals)) if any(k == "whole" for (_, _, k) in gp.defs().get(l, [])) and gp.locals[l]["ty"] == "usize" and l != 2
+    lv = [l for l in range(len(gp.locals)) if any(k == "whole" for (_, _, k) in gp.defs().get(l, [])) and gp.locals[l]["ty"] == "usize" and l != IDX
           and len([d for d in gp.defs().get(l, []) if d[2] == "whole"]) == 2]
     okl = False
     for l in lv:
